@@ -24,6 +24,29 @@ func propC18(c *Ctx, r *Report) {
 	// R3 publish-after-commit
 	r.rule("C18-R3/publish-after-commit", 1, "the sync height read by API handlers is advanced only after Commit succeeded")
 	rulePublishAfterCommit(c, sa, r, "C18-R3/publish-after-commit")
+	// thorough: cross-check the reachable sets against x/tools VTA; a function only VTA reaches (through
+	// library callbacks) must not be able to write the database
+	if c.Tier == "thorough" {
+		r.rule("C18-R1/callgraph-crosscheck", 1, "functions reached only in the VTA call graph cannot write")
+		writers := map[*ssa.Function]bool{}
+		for t := range cat.Tables {
+			for f := range tableWriters(c, cat, t) {
+				writers[f] = true
+			}
+		}
+		missing, extra := crossCheckReach(c, c.API, c.RAPI)
+		var bad []string
+		for _, n := range missing {
+			for f := range writers {
+				if fname(f) == n {
+					bad = append(bad, n)
+				}
+			}
+		}
+		r.Extra["vta_only_reachable_from_api"] = missing
+		r.Extra["module_graph_only_reachable_from_api"] = extra
+		r.check(len(bad) == 0, "C18-R1/callgraph-crosscheck", "API roots: VTA-only reachable functions", "-", fmt.Sprintf("%d functions reached only by VTA (library callbacks: sort comparators, String/MarshalJSON, cobra), none writes the database; %d reached only by the module graph", len(missing), len(extra)), "VTA reaches database-writing functions the module graph does not: "+strings.Join(bad, ", "))
+	}
 	// the API goroutine really is separate from the sync goroutine
 	r.Extra["api_roots"] = func() []string {
 		var s []string
